@@ -11,7 +11,7 @@ BUILDER = 'src/rpm/builder.rs'
 
 PARTS = HEAD + consts('LEAD_SIZE', 'INDEX_HEADER_SIZE', 'INDEX_ENTRY_SIZE', 'HEADER_MAGIC') + io_head() + header_types() + [
     Prelude('hdrspec.rs'),
-    Prelude('tags.rs'),
+] + tag_enums() + [
     Prelude('getters.rs'),
     Prelude('crypto.rs'),
     Decl('src/rpm/timestamp.rs', 'struct', 'Timestamp'),
